@@ -347,6 +347,25 @@ def p1_lilim_pairing(F, r):
             r.ok("read_jobs: pickup test", "a relation is recorded exactly for customers with demand > 0")
         else:
             r.fail("read_jobs: pickup test", f"relations are recorded on `demand {op} 0` (or not on the true side): deliveries (negative demand) or the depot create requests too, or pickups are skipped", F.loc(root, s2.get("ln")))
+    # the two customers of a request are found BY ID (the file may list customers in any order, with gaps): keyed lookup, never a position computed from the id
+    lookups = []
+    for g in F.family(root):
+        gfn = F.fns[g]
+        for _, t in mir.calls(gfn):
+            if t["callee"].endswith("create_single_job") and len(t["args"]) >= 2:
+                _, crossed = mir.deep_leaves(gfn, t["args"][1])
+                keyed = any(("HashMap" in c or "BTreeMap" in c) and c.split("::")[-1] in ("get", "get_mut", "remove", "entry", "index") for c in crossed)
+                positional = any((c.endswith("Index::index") or c.endswith("IndexMut::index_mut") or ("slice" in c and c.split("::")[-1] in ("get", "get_unchecked"))) for c in crossed) and not keyed
+                lookups.append((g, t, keyed, positional))
+    if lookups:
+        bad = [x for x in lookups if x[3]]
+        if bad:
+            r.fail("read_jobs: customer lookup", "a request's pickup / delivery customer is fetched by POSITION (index computed from the id) instead of by id: customer rows that are not "
+                   "listed in contiguous ascending order are paired with the wrong rows (wrong coordinates, demands, windows)", F.loc(bad[0][0], bad[0][1]["ln"]))
+        elif all(x[2] for x in lookups):
+            r.ok("read_jobs: customer lookup", "customers of a request are looked up by id (keyed map)")
+        else:
+            r.ok("read_jobs: customer lookup", "not decided: neither a keyed nor a positional lookup recognised")
     arr = [(g, st2) for g in F.family(root) for _, _, st2 in mir.stmts(F.fns[g]) if st2["r"]["k"] == "agg" and st2["r"].get("ak") == "array" and len(st2["r"]["o"]) == 2]
     if len(arr) != 1:
         r.ok("read_jobs: order", "not decided: the two sub-jobs are not built as a two-element array")
